@@ -67,3 +67,21 @@ def gomaxprocs (ps : List Bytes) : Bytes :=
   | none => []
 
 end Spec.Name
+
+namespace Spec.Name
+open Bytes
+
+/-- "full name with the excluded keys removed" (the `.fullname` value when other projections
+name `.name`, sub-name keys or `/gomaxprocs` individually): the base is replaced by `*` when
+`.name` is excluded; every part carrying an excluded `/k=` prefix is deleted; the `-N` part is
+deleted when `/gomaxprocs` is excluded. Always computed from the decomposition (no fast path). -/
+def fullNameExcluding (exclude : List Bytes) (b : Bytes) (ps : List Bytes) : Bytes :=
+  let excName := exclude.any (· == [46, 110, 97, 109, 101])
+  let subs := exclude.filter (·.head? == some slash)
+  let excG := subs.any (· == gomaxprocsKey)
+  let start := if excName then [42] else b
+  let kept := ps.filter fun part =>
+    !(subs.any fun k => hasPrefix part (k ++ [eqc])) && !(excG && part.head? == some dash)
+  start ++ kept.flatten
+
+end Spec.Name
